@@ -87,6 +87,55 @@ theorem C12_rank (s : State) (p idx tries to : Nat)
         exact hb.2 q hqm
       · simp only [hb, Bool.false_eq_true, ↓reduceIte] at h; cases h
 
+/-- **Scores move as specified (1)** — a result for a live batch changes the
+ranking exactly by result kind: OK rewards the reporting peer, a disconnect
+resets it to the default score, cancellation leaves the ranking alone, every
+other failure punishes it; nothing else in that step touches the ranking. -/
+theorem C12_rank_scores (s : State) (p : Nat) (e : Err) (w : Worker) (job : Job) (bp : Batch)
+    (hq : s.quit = false) (hoff : offering s = false)
+    (hw : findW s.workers p = some w) (ha : w.active = some job)
+    (hf : findB s.batches ((s.queries.lookup job.idx).getD 0) = some bp) :
+    (step s (.result p e)).1.rank =
+      (match e with
+       | .ok => reward s.rank p
+       | .canceled => s.rank
+       | .disconnected => resetRank s.rank p
+       | _ => punish s.rank p) := by
+  have hs : (step s (.result p e)).1 = (stepResult s p e).1 := by
+    simp only [step, hq, hoff, Bool.false_eq_true, ↓reduceIte]
+  rw [hs]; exact rank_after_result s p e w job bp hw ha hf
+
+/-- **Scores move as specified (2)** — for a peer the ranking knows with score
+`sc`: a reward lowers the score by one but not below `bestScore`, a punishment
+raises it by one but not above `worstScore`, a reset gives `defaultScore`; no
+other peer's score changes. -/
+theorem C12_score_moves (r : List (Nat × Nat)) (p sc : Nat) (h : r.lookup p = some sc) :
+    scoreOf (reward r p) p = (if sc = Gen.Dispatcher.bestScore then sc else sc - 1) ∧
+    scoreOf (punish r p) p = (if sc = Gen.Dispatcher.worstScore then sc else sc + 1) ∧
+    scoreOf (resetRank r p) p = Gen.Dispatcher.defaultScore ∧
+    ∀ q, q ≠ p → scoreOf (reward r p) q = scoreOf r q ∧ scoreOf (punish r p) q = scoreOf r q ∧
+      scoreOf (resetRank r p) q = scoreOf r q := by
+  have hsc : scoreOf r p = sc := by simp only [scoreOf, h, Option.getD_some]
+  refine ⟨?_, ?_, ?_, ?_⟩
+  · simp only [reward, h]
+    split
+    · rename_i hb; simp only [hb, ↓reduceIte] at hsc ⊢; exact hsc
+    · exact scoreOf_setScore_self _ _ _
+  · simp only [punish, h]
+    split
+    · rename_i hb; simp only [hb, ↓reduceIte] at hsc ⊢; exact hsc
+    · exact scoreOf_setScore_self _ _ _
+  · simp only [resetRank, h]; exact scoreOf_setScore_self _ _ _
+  · intro q hq
+    refine ⟨?_, ?_, ?_⟩
+    · simp only [reward, h]; split
+      · rfl
+      · exact scoreOf_setScore_other _ _ _ _ hq
+    · simp only [punish, h]; split
+      · rfl
+      · exact scoreOf_setScore_other _ _ _ _ hq
+    · simp only [resetRank, h]; exact scoreOf_setScore_other _ _ _ _ hq
+
 /-- **Re-issue** — when a worker reports a failure other than cancellation
 (timeout, disconnect, any other error) for the job it holds, then, unless the
 job's batch ended in this very step (retry cap reached, hard deadline passed) or
@@ -180,6 +229,13 @@ example : Out.verdict 0 (.res .ok) ∈ (step (run init (demo.take 9)) (.result 1
 /-- `C12_success_all` on the demo history: batch 0 has the nil verdict, its record is ⟨0,0,2⟩, both indices are in `okd` -/
 example : (0, Verdict.res .ok) ∈ (run init demo).verdicts ∧ (⟨0, 0, 2⟩ : Sub) ∈ (run init demo).subs ∧
     (run init demo).okd = [1, 0] := by decide
+/-- `C12_rank_scores` / `C12_score_moves`: default 4, punished to 5, rewarded twice to 3, reset to 4 -/
+example :
+    scoreOf (run init [.peer 1, .newBatch 3 true 0 false false, .accept 1, .result 1 .other]).rank 1 = 5 ∧
+    scoreOf (run init [.peer 1, .newBatch 3 true 0 false false, .accept 1, .result 1 .other, .accept 1,
+      .result 1 .ok, .accept 1, .result 1 .ok]).rank 1 = 3 ∧
+    scoreOf (run init [.peer 1, .newBatch 3 true 0 false false, .accept 1, .result 1 .ok, .accept 1,
+      .result 1 .disconnected]).rank 1 = 4 := by decide
 /-- `C12_rank`: with two free workers of different score only the better one may accept -/
 example :
     let s := run init [.peer 1, .peer 2, .newBatch 1 false 2 false false, .accept 1, .result 1 .other]
